@@ -51,8 +51,22 @@ func init() {
 		}
 		return tuple{fr.i.genericToValue(g, true), iface{}}
 	})
-	// the validator library is reflection based: cut (trusted)
-	reg("github.com/nyaruka/goflow/utils.Validate", func(fr *frame, args []value) value { return iface{} })
+	// the validator library is reflection based: its `required` rule is
+	// modelled (goflow's control flow depends on it: a legacy definition is
+	// recognised by failing the header's validation), every other rule is cut
+	reg("github.com/nyaruka/goflow/utils.Validate", func(fr *frame, args []value) value {
+		it, _ := args[0].(iface)
+		if it.t == nil {
+			return iface{}
+		}
+		if _, isSlice := it.t.Underlying().(*types.Slice); isSlice {
+			return iface{}
+		}
+		if msg := fr.i.validateRequired(it.t, it.v, "", 0); msg != "" {
+			return fr.i.mkError(msg)
+		}
+		return iface{}
+	})
 }
 
 // Symbolic bytes inside JSON text: a symbolic byte that is a plain string
